@@ -57,6 +57,14 @@ def _iv_widen(iv, underflow):
 class SymRnd:
     """iv: optional rational interval enclosing the value (interval arithmetic, used only as a sound pre-filter that saves the
     solver the overflow / zero-divisor questions whose answer is obvious from magnitudes)."""
+
+    # immutable value object: copying (copy.copy / copy.deepcopy, e.g. a deep copy of an object array) yields the same scalar
+    def __copy__(self):
+        return self
+
+    def __deepcopy__(self, memo):
+        return self
+
     __slots__ = ("v", "iv")
     __array_priority__ = 0
 
